@@ -26,10 +26,11 @@ SimNext ==
   \/ \E c \in Clients, k \in Keys : DelMap(c, k) /\ H([a |-> "del", p |-> c, k |-> k])
   \/ \E c \in Clients, k \in Keys : Get(c, k) /\ H([a |-> "get", p |-> c, k |-> k])
   \/ \E c \in Clients : Send(c) /\ H([a |-> "step", p |-> c])
+  \/ \E c \in Clients : SendCancelled(c) /\ H([a |-> "step", p |-> c])
   \/ \E c \in Clients : WaitSend(c) /\ H2([a |-> "wait", p |-> c], [a |-> "step", p |-> c])
   \/ \E c \in Clients : WakeShared(c) /\ H2([a |-> "step", p |-> c], [a |-> "m"])
   \/ \E c \in Clients : WaitCancelled(c) /\ (IF cpc[c] = "waitrecv" THEN H([a |-> "step", p |-> c]) ELSE H([a |-> "wait", p |-> c]))
-  \/ WakeOwn /\ (LET ws == SetToSeq(hadWait) IN
+  \/ WakeOwn /\ (LET ws == SetToSeq({c \in Clients : cpc[c] = "waitrecv" /\ <<c, cnt[c]>> \in hadWait}) IN
                   hist' = Append(hist, [a |-> "m"]) \o [i \in 1..Len(ws) |-> [a |-> "step", p |-> ws[i]]])
   \/ \E c \in Clients : CloseShards(c) /\ H([a |-> "close", p |-> c])
   \/ \E c \in Clients : CloseCancel(c) /\ HN
